@@ -190,8 +190,10 @@ class G:
             return v
         codec = str_codec(bt, enc, hl in (None, True))
         alpha = {"A_ASCIISTRING": LATIN, "A_UTF8STRING": UTF8, "A_UNICODE2STRING": UCS2}[bt]
-        if forbid:
+        if forbid and unit == 1:
             alpha = "".join(ch for ch in alpha if forbid[:1] not in ch.encode(codec))
+        # (two-byte code units: only an *aligned* 0x0000 / 0xFFFF unit is a terminator, and neither U+0000 nor
+        # U+FFFF is in the alphabet; code units containing a single 0x00 / 0xFF byte are legitimate values)
         out, nb = "", 0
         target = self.d(st.integers(lo_b, hi_b))
         for _ in range(16):
